@@ -473,4 +473,15 @@ class C14(Property):
         return Result(list(viols), ctrs, digest(sig), substates=nsub, nontrivial=nontrivial)
 
 
+    NON_VACUITY = ["glyphs_changed", "glyphs_added", "glyphs_removed", "reported_changed", "reported_added",
+                   "reported_removed", "excluded_glyph_intact", "changed_as_base_only", "source_frames_checked",
+                   "reuse_compared", "order_compared", "structurally_different_master_lists"]
+
+    def finish(self, b, summary):
+        if b.get("only"):
+            return []
+        missing = [k for k in self.NON_VACUITY if not summary["counters"].get(k)]
+        return [violation("vacuous-exploration", {"counter": k}) for k in missing]
+
+
 PROPERTY = C14()
